@@ -38,8 +38,13 @@ def log(msg):
     sys.stderr.flush()
 
 
+TAG2_RE = re.compile(r'/\*@(C\d\d)\*/')
+
+
 def clause_tags(clause, fn_tags):
-    t = TAG_RE.findall(clause)
+    # a clause belongs to the properties its spec-function names carry (`t18_C16(`), or to those an injected helper-closure contract
+    # names in a marker comment (`/*@C10*/`), otherwise to the function's own tags
+    t = TAG_RE.findall(clause) + TAG2_RE.findall(clause)
     return sorted(set(t)) if t else list(fn_tags)
 
 
@@ -359,7 +364,10 @@ def evaluate(r, prop, known):
             if e['clause_lines'] and ('postcondition' in e['kind'] or 'post-condition' in e['kind']):
                 for ln in e['clause_lines']:
                     text = r.lines[ln - 1].strip().rstrip(',')
-                    tg = clause_tags(text, c['tags'])
+                    # a failed postcondition of a helper closure that names no property (and whose function has no tags of its own)
+                    # concerns every property the function carries, like any other body-level failure.  (Until round 5 such a
+                    # failure was attributed to nothing and silently dropped: `raw_draught as f32 / 100.0` passed the C10 check.)
+                    tg = clause_tags(text, c['tags']) or sorted(fn_tags)
                     if prop in tg:
                         failures.append(dict(ob=q + ':ensures:' + text, err=e, tags=tg, clause=text, contract=c))
             elif e['status'] == 'refuted':
